@@ -296,21 +296,18 @@ def match_known(prop, comp, run, idx, ev, known):
     return None
 
 
-def corrupt(comp, runs):
-    """binding self-test: flip one observed field in one event of an accepted trace"""
-    c = COMPONENTS[comp]
-    fn = c['corrupt']
-    for ri, r in enumerate(runs):
-        for i in range(1, len(r)):
-            try:
-                ev = json.loads(r[i])
-            except Exception:
-                continue
-            ev2 = fn(ev)
-            if ev2 is not None:
-                r2 = list(r)
-                r2[i] = json.dumps(ev2) + '\n'
-                return r2, i + 1
+def corrupt(comp, runs, profile):
+    """binding self-test: the component's corruption function alters what one event observed
+    (returns a new list of events or None if the run has nothing to corrupt)"""
+    fn = COMPONENTS[comp]['corrupt']
+    for r in runs:
+        try:
+            evs = [json.loads(x) for x in r]
+        except Exception:
+            continue
+        r2 = fn(evs, profile)
+        if r2 is not None:
+            return [json.dumps(e) + '\n' for e in r2], True
     return None, None
 
 
@@ -390,7 +387,7 @@ def check(prop, tier, seed, replay=None):
     # binding self-test: a corrupted trace must be rejected
     selftest = {'corrupted_rejected': None}
     if first_ok_runs:
-        r2, at = corrupt(comp, first_ok_runs[:50])
+        r2, at = corrupt(comp, first_ok_runs[:200], profile)
         if r2 is not None:
             n_ok, rej, _ = validate_file(comp, profile if P.get('selftest_profile') is None else P['selftest_profile'], [r2], workdir, 'selftest')
             selftest['corrupted_rejected'] = bool(rej)
